@@ -15,6 +15,8 @@ def run(chk):
     assignempty.run(chk)
     from lib import arenareset
     arenareset.run(chk)
+    from lib import bitsetgrow
+    bitsetgrow.run(chk)
     return chk.finish(
         level="other",
         explanation=("Decides one structural clause of C18 on /repo's current source: in String::_op_vformat() and Arena::sformat() the value "
